@@ -698,12 +698,37 @@ func errKind(err error) string {
 var errCode = map[string]uint64{"notfound": 1, "incompatible": 2, "unsupported": 3, "missed": 4, "other": 0}
 
 func ask(app appdef.IAppDef, q *QueryD) string {
-	ws := app.Workspace(qn(q.Ws))
-	roles := make([]appdef.QName, len(q.Roles))
-	for i, r := range q.Roles {
-		roles[i] = qn(r)
+	return askWith(app, q, callerRoles(q.Roles))
+}
+
+// callerRoles builds a caller's role slice the way request contexts do: by append, with spare capacity
+func callerRoles(names []string) []appdef.QName {
+	roles := make([]appdef.QName, 0, len(names)+2)
+	for _, r := range names {
+		roles = append(roles, qn(r))
 	}
-	ok, err := acl.IsOperationAllowed(ws, opByName[q.Op], qn(q.Res), q.Flds, roles)
+	return roles
+}
+
+// askWith asks with the caller's own role slice (kept and reused by the caller for further requests).
+// The call must leave the caller's slices as they were: otherwise the outcome is "mutated".
+func askWith(app appdef.IAppDef, q *QueryD, roles []appdef.QName) string {
+	ws := app.Workspace(qn(q.Ws))
+	flds := append(make([]string, 0, len(q.Flds)+2), q.Flds...)
+	ok, err := acl.IsOperationAllowed(ws, opByName[q.Op], qn(q.Res), flds, roles)
+	if len(roles) != len(q.Roles) || len(flds) != len(q.Flds) {
+		return "mutated"
+	}
+	for i, r := range q.Roles {
+		if roles[i] != qn(r) {
+			return "mutated"
+		}
+	}
+	for i, f := range q.Flds {
+		if flds[i] != f {
+			return "mutated"
+		}
+	}
 	switch {
 	case err != nil:
 		return "err:" + errKind(err)
@@ -721,6 +746,8 @@ func outcomeTerm(obs string) string {
 		return "ODeny"
 	case obs == "crash":
 		return "OCrash"
+	case obs == "mutated":
+		return "OMutated"
 	case strings.HasPrefix(obs, "err:"):
 		return fmt.Sprintf("(OErr %d)", errCode[obs[4:]])
 	}
